@@ -205,7 +205,7 @@ def run_part(item):
     pending = []   # every scaling object of the part is constructed first and used afterwards (objects must not share state)
     if part == 'rtd':
         wiring = sub
-        step = 0.5 if tier == 'thorough' else 2.5
+        step = 0.1 if tier == 'thorough' else 2.5
         Ts = t_grid(-200.0, 850.0, step)
         for rl, r0, (a, b, c), I in itertools.product((0.0, 0.7, 5.0), (100.0, 1000.0),
                                                        ((3.9083e-3, -5.775e-7, -4.183e-12), (3.9692e-3, -5.8495e-7, -4.2325e-12)),
@@ -218,7 +218,7 @@ def run_part(item):
         res['samples'].append({'sensor': 'RTD', 'wiring': wiring, 'temperatures': len(Ts)})
     elif part == 'thermistor':
         exc, wiring = sub
-        step = 1.0 if tier == 'thorough' else 5.0
+        step = 0.25 if tier == 'thorough' else 5.0
         for rl, r1, (a, b, c), off, val in itertools.product((0.0, 1.5), (5000.0, 10000.0),
                                                               ((1.295361e-3, 2.343159e-4, 1.018703e-7), (1.125308852122e-3, 2.34711863267e-4, 8.5663516e-8)),
                                                               (0.0, 273.15), ((1e-4,) if exc == 'current' else (2.5,))):
@@ -238,7 +238,7 @@ def run_part(item):
         conf = sub
         eps_grid = [s * m for m in (1e-6, 1e-5, 1e-4, 5e-4, 1e-3, 2e-3, 5e-3, 1e-2) for s in (1, -1)] + [0.0]
         if tier == 'thorough':
-            eps_grid += [s * m for m in (3e-6, 3e-5, 3e-4, 3e-3, 2e-2) for s in (1, -1)]
+            eps_grid += [s * m * k for m in (1e-6, 1e-5, 1e-4, 1e-3) for k in (1.5, 2.0, 3.0, 4.0, 6.0, 8.0) for s in (1, -1)] + [2e-2, -2e-2, 5e-2, -5e-2]
         for nu, gf, rg, rl, vinit, gain, vex in itertools.product((0.3, 0.0), (2.1, 1.9), (350.0, 120.0), (0.0, 2.0), (0.0, 1.25e-4),
                                                                   (1.0, 1.04), (2.5, 10.0)):
             lead_ratio = (rl / rg) if conf in (10188, 10189, 10271, 10272) else 0.0
